@@ -14,6 +14,10 @@ package transmit
 // runs - a batch that is registered is never replaced, or the events already in it would never be sent. A presence
 // test made in an earlier critical section does not count (other goroutines enqueue concurrently).
 //@ insertonly transmit.DirectTransmission.eventBatches
+// C16 / C02 (a kept span is sent once, as it is): a batch's events are handed to the sending goroutine when the batch is
+// emptied; the batch then starts over with NO slice - an emptied field that were a reslice of the old array would let the
+// next enqueue overwrite an event the sender has not serialised yet.
+//@ nilreset transmit.eventBatch.events
 //@ guarded_by transmit.eventBatch.mutex: events, startTime
 //@ lockdiscipline transmit.eventBatch mutex props C35
 
@@ -193,14 +197,14 @@ package transmit
 // arithmetic that turns "scanned every T/4, sent at the first scan at which it is T old" into "sent before 1.25 T".
 //@ ghost tickerPeriod(ref) int
 //@ final transmit.DirectTransmission.batchTimeout
-//@ contract transmit.(*DirectTransmission).dispatchStaleBatches props C26 havocheap noinv
+//@ contract transmit.(*DirectTransmission).dispatchStaleBatches props C26,C16 havocheap noinv
 //@   arith math
 //@   assert only none
 //@   requires d != nil
 // (a shorter period would do as well: the bound only needs scans at most a quarter of the timeout apart)
 //@   loop 1 invariant[the-table-is-scanned-every-quarter-of-the-timeout] tickerPeriod(batchTicker) <= toInt(d.batchTimeout) / 4
 //@   modifies all(goN)
-//@ fragment transmit.(*DirectTransmission).dispatchStaleBatches loop 3 body props C26 noinv
+//@ fragment transmit.(*DirectTransmission).dispatchStaleBatches loop 3 body props C26,C16 noinv
 //@   arith math
 //@   assert only none
 //@   requires d != nil && d.dispatchPool != nil
